@@ -1,5 +1,5 @@
 """C02 — Markovian SIS simulators sample the exact SIS chain."""
-import common, gillcheck
+import common, gillcheck, fastsis
 
 
 def run(ctx):
@@ -9,3 +9,4 @@ def run(ctx):
     if not ctx.thorough:
         cases = ctx.rng.sample(cases, min(len(cases), 150))
     gillcheck.law_check(ctx, drv, True, cases, "Gillespie_SIS")
+    fastsis.correspondence(ctx, drv, ctx.scale(600, 3000))
